@@ -90,13 +90,36 @@ func main() {
 		}(w)
 	}
 	wg.Wait()
-	for _, cat := range []string{"matcher:=", "matcher:!=", "matcher:=~", "matcher:!~", "offset", "selector"} {
-		found := false
-		for _, mode := range []string{"instant", "range"} {
-			found = found || c.DistinctCount("nonempty:"+mode+":"+cat) > 0
+	// categories the design requires: each must have taken part in a non-empty comparison
+	required := []string{"selector", "matcher:=", "matcher:!=", "matcher:=~", "matcher:!~", "offset",
+		"fn:rate", "fn:increase", "fn:delta", "fn:irate", "fn:sum_over_time", "fn:avg_over_time", "fn:min_over_time",
+		"fn:max_over_time", "fn:count_over_time", "agg:sum:by", "agg:sum:without", "agg:avg:by", "agg:avg:without"}
+	reached := func(prefixes ...string) bool {
+		for t := range nonemptyTags {
+			for _, p := range prefixes {
+				if strings.HasPrefix(t, p) {
+					return true
+				}
+			}
 		}
-		if !found {
+		return false
+	}
+	for _, cat := range required {
+		if !nonemptyTags[cat] {
 			c.Inconclusive("category-not-reached:"+cat, 1)
+		}
+	}
+	for _, op := range arithOps {
+		if !reached("arith:" + op + ":vector-scalar", "arith:"+op+":scalar-vector") {
+			c.Inconclusive("category-not-reached:arith:"+op+":with-scalar", 1)
+		}
+	}
+	for _, op := range cmpOps {
+		if !reached("cmp:"+op+":vector-scalar", "cmp:"+op+":scalar-vector") {
+			c.Inconclusive("category-not-reached:cmp:"+op+":with-scalar", 1)
+		}
+		if !reached("cmp:" + op + ":bool:") {
+			c.Inconclusive("category-not-reached:cmp:"+op+":bool", 1)
 		}
 	}
 	c.Finish()
@@ -459,21 +482,20 @@ func (r *setRun) judge(full, n *Node, mode string, p EvalParams, ref, got *Resul
 	if ref.points() > 0 {
 		c.Nontrivial(mode + "|" + n.Shape())
 		for t := range tags {
-			c.Distinct("nonempty:"+mode+":"+strings.SplitN(t, ":", 3)[0]+":"+second(t), "x")
 			c.Count("nonempty-results-by-construct/"+mode+"/"+t, 1)
+			nonemptyMu.Lock()
+			nonemptyTags[t] = true
+			nonemptyMu.Unlock()
 		}
 	} else {
 		c.Count(mode+":agreed-empty", 1)
 	}
 }
 
-func second(tag string) string {
-	p := strings.SplitN(tag, ":", 3)
-	if len(p) > 1 {
-		return p[1]
-	}
-	return ""
-}
+var (
+	nonemptyMu   sync.Mutex
+	nonemptyTags = map[string]bool{} // constructs that took part in a compared, non-empty result
+)
 
 // evalMode evaluates a node in the given mode and returns (expected, got, difference).
 func (r *setRun) evalMode(n *Node, mode string, p EvalParams) (*Result, *Result, *Diff) {
@@ -532,7 +554,11 @@ func (r *setRun) report(full, n *Node, mode string, p EvalParams, d *Diff, want,
 	min := n
 	for depth := 0; depth < 16; depth++ {
 		var next *Node
-		for _, k := range append(min.Kids(), min.Simpler()...) {
+		cands := min.Kids()
+		if d.Detail != noAnswer { // every variant of an unanswered query costs a time-out and a restart
+			cands = append(cands, min.Simpler()...)
+		}
+		for _, k := range cands {
 			w2, g2, d2 := r.evalMode(k, mode, p)
 			if d2 != nil {
 				next, want, got, d = k, w2, g2, d2
@@ -548,7 +574,7 @@ func (r *setRun) report(full, n *Node, mode string, p EvalParams, d *Diff, want,
 	if kind == "error" || kind == "instant-error-at-step" {
 		kind += ":" + errorClass(d.Detail)
 	}
-	sig := kind + "|" + min.Head() + "|" + mode + "|" + min.Shape()
+	sig := kind + "|" + mode + "|" + min.Head() + "|" + min.Shape()
 	if mode != "instant" && rangeBelowStep(min, p) {
 		// data shape: windows of a range function do not tile the range query (range < step)
 		sig = "range<step|" + sig
